@@ -492,6 +492,26 @@ pub fn exec_replicas(ctx: &mut Ctx, s: &Scenario) -> Outcome {
                 if prop == "C03" {
                     check_ic_invariants(&mut out, prop, &what, &got);
                 }
+                if prop == "C02" {
+                    // records stay direct on this path too: a kept record lists exactly the retained subset of the
+                    // terms it is directly annotated with in the source (which records are kept is C14's business)
+                    let src_facts = &built[sub.source].2;
+                    let retained: std::collections::BTreeSet<u32> = got.terms.iter().map(|t| t.id).collect();
+                    for (k, recs) in [(crate::facts::Kind::Gene, &got.genes), (crate::facts::Kind::Omim, &got.omim), (crate::facts::Kind::Orpha, &got.orpha)] {
+                        for g in recs.iter() {
+                            if let Some(srec) = src_facts.recs(k).iter().find(|x| x.id == g.id) {
+                                let want: Vec<u32> = srec.terms.iter().copied().filter(|t| retained.contains(t)).collect();
+                                let mut have = g.terms.clone();
+                                have.sort_unstable();
+                                if have != want {
+                                    out.violate(prop, format!("sub:record-not-direct({k:?})"), format!("{what}: {k:?} {} lists {:?}, the retained subset of its direct terms is {:?}", g.id, g.terms, want));
+                                }
+                            } else {
+                                out.violate(prop, format!("sub:foreign-record({k:?})"), format!("{what}: {k:?} {} is not a record of the source", g.id));
+                            }
+                        }
+                    }
+                }
             }
         }
     }
